@@ -8,6 +8,8 @@ CONSTANTS
   SrvMayClose = TRUE
   Reactions <- AllReactions
   HandlerReconnect = TRUE
+  SrvMayStall = TRUE
+  ShutdownBoth = TRUE
   Fixed = TRUE
   Emit = FALSE
 INVARIANT AtMostOneInIo
